@@ -7,7 +7,7 @@
 //! (`refmmr::RefMmr`, own blake2b). Part "chain": `Chain::compact()` on the
 //! prepared base chain, before/after comparison and an in-horizon reorg.
 
-use crate::elems::{FixElem, VarElem};
+use crate::elems::{FixElem, LenElem, VarElem};
 use crate::engine::*;
 use crate::props::c02;
 use crate::refmmr::{self, RefMmr, H32};
@@ -98,6 +98,15 @@ pub enum XStep {
 	/// kernel/pmmr_data.bin and kernel/pmmr_hash.bin but no size file (txhashset.rs
 	/// file_list), so AppendOnlyFile::open rebuilds it from the data file.
 	ReopenWithoutSizeFile,
+}
+
+impl TElem for LenElem {
+	fn make(seed: u64, serial: u64) -> Self {
+		LenElem(VarElem::make(seed, serial).0)
+	}
+	fn ser(&self) -> Vec<u8> {
+		self.bytes()
+	}
 }
 
 #[derive(Clone, Debug, Serialize, Deserialize, PartialEq)]
@@ -528,7 +537,18 @@ struct Stats {
 
 pub fn check_store(ctx: &Ctx, hist: &History, counting: bool) -> PResult {
 	let dir = ctx.scratch_dir("s");
-	let r = if hist.var { run_history::<VarElem>(ctx, hist, counting, &dir) } else { run_history::<FixElem>(ctx, hist, counting, &dir) };
+	// variable-size elements come in two encodings: one length byte + payload, or (odd data seeds) the u64 length
+	// prefix of Writer::write_bytes read back with Reader::read_bytes_len_prefix
+	let r = if hist.var && hist.seed % 2 == 1 {
+		if counting {
+			ctx.ev.class("store:var_size_elements_with_u64_length_prefix");
+		}
+		run_history::<LenElem>(ctx, hist, counting, &dir)
+	} else if hist.var {
+		run_history::<VarElem>(ctx, hist, counting, &dir)
+	} else {
+		run_history::<FixElem>(ctx, hist, counting, &dir)
+	};
 	let _ = std::fs::remove_dir_all(&dir);
 	r
 }
